@@ -68,6 +68,7 @@ class Splice:
     closures: Dict[int, str] = field(default_factory=dict)
     loop_inv: Dict[int, str] = field(default_factory=dict)
     loop_body_start: Dict[int, str] = field(default_factory=dict)
+    loop_body_end: Dict[int, str] = field(default_factory=dict)
     loop_iter: Dict[int, str] = field(default_factory=dict)
     before: List[Tuple[str, int, str]] = field(default_factory=list)
     after: List[Tuple[str, int, str]] = field(default_factory=list)
@@ -105,6 +106,8 @@ def parse_splice(path: str) -> Splice:
                 sp.loop_inv[n] = text
             elif what == "body_start":
                 sp.loop_body_start[n] = text
+            elif what == "body_end":
+                sp.loop_body_end[n] = text
             else:
                 raise ValueError(f"{path}: unknown loop splice {what}")
         elif k in ("before", "after"):
@@ -122,6 +125,13 @@ def parse_splice(path: str) -> Splice:
         if m:
             flush()
             key, rest = m.group(1), m.group(2).strip()
+            if key == "base":
+                # a variant splice: start from another splice file of the same directory, then add to it
+                sp = parse_splice(os.path.join(os.path.dirname(path), rest))
+                continue
+            if key == "contract_extra":
+                cur = ("contract",)
+                continue
             if key == "ret":
                 sp.ret = rest
             elif key == "loop_iter":
@@ -581,9 +591,9 @@ def splice_fn(text: str, sp: Splice, item: str, vacuity: bool = False) -> str:
             if ct[bf].text != "{":
                 fr.insert(ct[bf].start, "{ ")
                 fr.insert(ct[bl].end, " }")
-    if sp.loop_inv or sp.loop_body_start or sp.loop_iter:
+    if sp.loop_inv or sp.loop_body_start or sp.loop_iter or sp.loop_body_end:
         lp = R.loops(ct, bo + 1, bc)
-        for n in set(sp.loop_inv) | set(sp.loop_body_start) | set(sp.loop_iter):
+        for n in set(sp.loop_inv) | set(sp.loop_body_start) | set(sp.loop_iter) | set(sp.loop_body_end):
             if n >= len(lp):
                 raise ExtractError(f"{item}: loop #{n} not found (function has {len(lp)})")
             kw, lbo, lbc = lp[n]
@@ -596,6 +606,8 @@ def splice_fn(text: str, sp: Splice, item: str, vacuity: bool = False) -> str:
                 fr.insert(ct[lbo].start, "\n" + sp.loop_inv[n])
             if n in sp.loop_body_start:
                 fr.insert(ct[lbo].end, "\n" + sp.loop_body_start[n])
+            if n in sp.loop_body_end:
+                fr.insert(ct[lbc].start, "\n" + sp.loop_body_end[n])
             if vacuity and n in sp.loop_inv:
                 fr.insert(ct[lbo].end, f"\nassert(false); // @vacuity.{item.replace('::', '.')}.loop{n}\n")
     for which, lst in (("before", sp.before), ("after", sp.after)):
